@@ -91,10 +91,17 @@ impl TorrentMaps {
         info_hash: InfoHash,
         peer_id: PeerId,
         ip_version: IpVersion,
+        out_message_consumer_id: ConsumerId,
+        connection_id: ConnectionId,
     ) {
         let torrent_map = self.get_torrent_map_by_ip_version(ip_version);
 
-        torrent_map.handle_connection_closed(info_hash, peer_id);
+        torrent_map.handle_connection_closed(
+            info_hash,
+            peer_id,
+            out_message_consumer_id,
+            connection_id,
+        );
     }
 
     fn get_torrent_map_by_ip_version(&mut self, ip_version: IpVersion) -> &mut TorrentMap {
@@ -267,10 +274,18 @@ impl TorrentMap {
         out_messages.push((meta.into(), OutMessage::ScrapeResponse(out_message)));
     }
 
-    pub fn handle_connection_closed(&mut self, info_hash: InfoHash, peer_id: PeerId) {
+    pub fn handle_connection_closed(
+        &mut self,
+        info_hash: InfoHash,
+        peer_id: PeerId,
+        out_message_consumer_id: ConsumerId,
+        connection_id: ConnectionId,
+    ) {
         if let Some(torrent_data) = self.torrents.get_mut(&info_hash) {
             torrent_data.handle_connection_closed(
                 peer_id,
+                out_message_consumer_id,
+                connection_id,
                 #[cfg(feature = "metrics")]
                 &self.peer_gauge,
             );
@@ -541,8 +556,21 @@ impl TorrentData {
     pub fn handle_connection_closed(
         &mut self,
         peer_id: PeerId,
+        out_message_consumer_id: ConsumerId,
+        connection_id: ConnectionId,
         #[cfg(feature = "metrics")] peer_gauge: &::metrics::Gauge,
     ) {
+        // Only remove the peer if it was created by the closed connection.
+        // The connection may have announced with the peer id of a peer
+        // belonging to another connection, in which case the announce was
+        // ignored, but the peer id was still registered for clean up.
+        match self.peers.get(&peer_id) {
+            Some(peer)
+                if peer.connection_id == connection_id
+                    && peer.consumer_id.0 == out_message_consumer_id.0 => {}
+            _ => return,
+        }
+
         if let Some(peer) = self.peers.swap_remove(&peer_id) {
             if peer.seeder {
                 self.num_seeders -= 1;
